@@ -215,7 +215,8 @@ class Sched(object):
             if self.switches >= self.max_switches:
                 return
             if len(self.runnable) <= 1:
-                self._arm() if tag == "c" else None
+                # nobody to switch to: the C-level countdown stays off (it is re-armed when this thread is switched in
+                # again or unblocks another one), line events keep their own countdown
                 return
             if self.rng.random() >= self.p_switch:
                 if tag == "c":
@@ -248,11 +249,15 @@ class Sched(object):
         self._arm()
 
     def unblock(self, lock):
+        woke = False
         for t in sorted(self.blocked):
             if self.blocked[t] is lock:
                 del self.blocked[t]
                 self.runnable.append(t)
                 self.runnable.sort()
+                woke = True
+        if woke:
+            self._arm()          # there is somebody to switch to again
 
     # -- tracing
     def _global_trace(self, frame, event, arg):
